@@ -3,10 +3,11 @@ import SleapVerif.Model.Arch
 import SleapVerif.Gen.TranslatedArch
 /-! Driver for C14.
 
-`model fam variant filters p q maxStride bos stem cpb middle upInterp inCh fixMid fixWrap <nh> (head spec)* <nc> (h w)*`
+`model fam variant filters p q maxStride bos stem cpb middle upInterp inCh fixMid fixWrap stemKernel <nh> (head spec)* <nc> (h w)*`
   → `construct-raise <err>` | `built L <labels> O <dec out> I <head in> | <last call>` with
     `<last call>` = `fwd-raise <err>` | `ok G <n> (label ch h w)* H <n> (ch h w)*`
   (the calls are a history on one module: first call fresh pools, later calls stale pools).
+`sameconv n k`       → `sameConvOut n k` and `explicitHalfPadOut n k`
 `pad i k s d`        → generated `_calc_same_pad`
 `blocks none stem ms bos` → generated `UNet.from_config` block counts `down up stem`
 -/
@@ -49,12 +50,12 @@ def pCfg : P (Cfg × List (Nat × Nat)) := do
     | _ => failure
   let variant ← nat; let filters ← nat; let p ← nat; let q ← nat; let ms ← nat; let bos ← nat
   let stem ← nat; let cpb ← nat; let mid ← bool; let upi ← bool; let inCh ← nat
-  let fixMid ← bool; let fixWrap ← bool
+  let fixMid ← bool; let fixWrap ← bool; let stemKernel ← nat
   let heads ← listOf pHead
   let calls ← listOf (do let h ← nat; let w ← nat; pure (h, w))
   pure ({ fam := fam, variant := variant, filters := filters, rate := ⟨p, q⟩, maxStride := ms, bos := bos,
           stem := stem, cpb := cpb, middle := mid, upInterp := upi, inCh := inCh, heads := heads,
-          fixMid := fixMid, fixWrap := fixWrap }, calls)
+          fixMid := fixMid, fixWrap := fixWrap, stemKernel := stemKernel }, calls)
 
 def handle (line : String) : String :=
   match tokens line with
@@ -70,6 +71,10 @@ def handle (line : String) : String :=
         match callSeq c k calls true with
         | none => head
         | some r => head ++ " | " ++ fwdStr r
+  | "sameconv" :: rest =>
+    match runP (do let n ← nat; let k ← nat; pure (n, k)) rest with
+    | some (n, k) => s!"{sameConvOut n k} {explicitHalfPadOut n k}"
+    | none => "bad-op"
   | "pad" :: rest =>
     match runP (do let i ← int; let k ← int; let s ← int; let d ← int; pure (i, k, s, d)) rest with
     | some (i, k, s, d) => toString (Gen.TranslatedArch.calc_same_pad i k s d)
